@@ -11,6 +11,7 @@ import XtModel.Model.Json
 import XtModel.Model.MsgpackSize
 import XtModel.Model.MsgpackCodec
 import XtModel.Model.CliWire
+import XtModel.Model.Stream
 
 /-!
 Native driver: one case per input line, one answer per output line
@@ -484,6 +485,75 @@ def msgpack (fs : List String) : String :=
 
 end MP
 
+/-! ### stream: `lagok <lag> <ends> <outEnds> <trace>`, `lagat <d> <la> <ends> <outEnds> <trace>`,
+`loopmodel <json|msgpack|yaml> <ends> <outEnds> <packets> <C>`
+
+Trace tokens: `r<off>:<n>` (read request at offset `off` returned `n` bytes), `w<n>`. -/
+def parseStreamEv (tok : String) : Option Stream.Ev :=
+  match tok.toList with
+  | 'w' :: ds => (String.ofList ds).toNat?.map .wr
+  | 'r' :: rest =>
+    match (String.ofList rest).splitOn ":" with
+    | [a, b] => do some (.rd (← a.toNat?) (← b.toNat?))
+    | _ => none
+  | _ => none
+
+def parseStreamTrace (s : String) : Option (List Stream.Ev) :=
+  if s = "-" then some [] else (s.splitOn ",").mapM parseStreamEv
+
+def streamEvTok : Stream.Ev → String
+  | .rd off n => s!"r{off}:{n}"
+  | .wr n => s!"w{n}"
+
+def streamTraceTok (t : List Stream.Ev) : String :=
+  if t.isEmpty then "-" else ",".intercalate (t.map streamEvTok)
+
+def lagAnswer (d la : Nat) (ends outEnds : List Nat) (tr : List Stream.Ev) : String :=
+  -- one pass when `ends` is nondecreasing (`Lemmas/Stream.lagFirstBadFast_eq`: same answer)
+  match Stream.lagFirstBadFast d la ends outEnds tr with
+  | none => "ok"
+  | some i => s!"bad:{i}"
+
+/-- Documents from `ends` / `outEnds` (both must be nondecreasing) and a
+look-ahead per position (`laLast` for the last document). -/
+def docsOf (la laLast : Nat) : Nat → Nat → List Nat → List Nat → Option (List Stream.Doc)
+  | _, _, [], [] => some []
+  | pe, po, e :: es, o :: os =>
+    if pe ≤ e ∧ po ≤ o then
+      (docsOf la laLast e o es os).map (⟨e, if es.isEmpty then laLast else la, o - po⟩ :: ·)
+    else none
+  | _, _, _, _ => none
+
+def stream (fs : List String) : String :=
+  match fs with
+  | ["lagok", lag, ends, outs, tr] =>
+    match lag.toNat?, parseNats ends, parseNats outs, parseStreamTrace tr with
+    | some lag, some ends, some outs, some tr => lagAnswer (2 + lag) 0 ends outs tr
+    | _, _, _, _ => "bad-case"
+  | ["lagat", d, la, ends, outs, tr] =>
+    match d.toNat?, la.toNat?, parseNats ends, parseNats outs, parseStreamTrace tr with
+    | some d, some la, some ends, some outs, some tr => lagAnswer d la ends outs tr
+    | _, _, _, _, _ => "bad-case"
+  | ["loopmodel", kind, ends, outs, packets, c] =>
+    match parseNats ends, parseNats outs, parseNats packets, c.toNat? with
+    | some ends, some outs, some packets, some c =>
+      let total := packets.foldl (· + ·) 0
+      let sizes := Stream.sizesOf c packets
+      match kind with
+      | "json" | "msgpack" =>
+        match docsOf 0 0 0 0 ends outs with
+        | some docs => streamTraceTok (Stream.coalesce (Stream.eagerRun total sizes docs))
+        | none => "bad-case"
+      | "yaml" =>
+        -- the last document is complete only at the end of the stream
+        let last := ends.getLast?.getD 0
+        match docsOf Stream.yamlIndicatorLookahead (total + 1 - last) 0 0 ends outs with
+        | some docs => streamTraceTok (Stream.coalesce (Stream.yamlRun sizes docs))
+        | none => "bad-case"
+      | _ => "bad-case"
+    | _, _, _, _ => "bad-case"
+  | _ => "bad-case"
+
 def answer (fs : List String) : String :=
   match fs with
   | "encdetect" :: _ | "reencode" :: _ | "reencstream" :: _ => encoding fs
@@ -499,6 +569,7 @@ def answer (fs : List String) : String :=
   | "msgsize" :: _ | "msgclass" :: _ | "msgconst" :: _ | "msgdecode" :: _ | "msgdec1" :: _ => MP.msgpack fs
   | "cli" :: _ | "noflush" :: _ | "plan" :: _ | "ext" :: _ | "stdinpath" :: _ | "fmtname" :: _ | "pipecheck" :: _
   | "lexopt" :: _ => Xt.CliWire.answer fs
+  | "lagok" :: _ | "lagat" :: _ | "loopmodel" :: _ => stream fs
   | _ => "bad-engine"
 
 partial def loop (h : IO.FS.Stream) (out : IO.FS.Stream) : IO Unit := do
